@@ -99,6 +99,11 @@ func (s *fwdSession) push(ev *contract.StarknetLogStateUpdate) (outs []*l1.State
 // event to the next, e.g. a "same as the last forwarded" suppression). The unmodified loop hands on exactly one
 // update per event; an event that produces none within the grace period counts as dropped.
 func (s *fwdSession) pushAdjacent(ev *contract.StarknetLogStateUpdate) (outs []*l1.StateUpdate, problem string) {
+	if adjacentTimeouts >= 5 {
+		// the loop under test keeps dropping events: every further wait would cost the whole grace period (a run with
+		// thousands of them would hit the time limit instead of reporting); the sentinel delivery needs no waiting
+		return s.push(ev)
+	}
 	if !s.send(ev) {
 		return nil, "forwarding loop does not take the event"
 	}
@@ -106,9 +111,12 @@ func (s *fwdSession) pushAdjacent(ev *contract.StarknetLogStateUpdate) (outs []*
 	case u := <-s.out:
 		return []*l1.StateUpdate{u}, ""
 	case <-time.After(400 * time.Millisecond):
+		adjacentTimeouts++
 		return nil, ""
 	}
 }
+
+var adjacentTimeouts int
 
 // fail makes the geth subscription fail: the error must surface on Err(), the loop must end and
 // release the geth subscription.
